@@ -53,8 +53,17 @@ def run_wire(ctx):
     for T, desc in wire_types():
         w = codecio.wt_str(desc)
         greedy = desc[0] == "greedy"
-        for _ in range(ctx.scale(6, 80)):
-            v = gen.gen(T, r)
+        vals = [gen.gen(T, r) for _ in range(ctx.scale(6, 80))]
+        if T.__name__ == "SimpleDescriptor":
+            # every combination of "how many input / output clusters" (none, one, several), systematically
+            for ni in (0, 1, 3):
+                for no in (0, 1, 2):
+                    i = [r.getrandbits(16) for _ in range(ni)]
+                    o = [r.getrandbits(16) for _ in range(no)]
+                    vals.append(T(endpoint=r.getrandbits(8), profile=r.getrandbits(16), device_type=r.getrandbits(16),
+                                  device_version=r.getrandbits(8), input_clusters_count=ni, output_clusters_count=no,
+                                  input_clusters=i, output_clusters=o))
+        for v in vals:
             raw = v.serialize()
             suffix = b"" if greedy else bytes(r.getrandbits(8) for _ in range(r.choice([0, 1, 3, 9])))
             lines.append("wenc %s %s" % (w, codecio.val_str(desc, v)))
